@@ -88,23 +88,23 @@ ElemKnown(e, i) ==
 \* (a disagreement is a problem of the oracle, reported as SANITY, not a verdict about the library)
 Sane(e) == e.op = "UT" /\ StampInDomain(e.st) => e.un = Instant(StampOf(e.st))
 
-Report(e) ==
-  IF IsChunk(e) THEN
-    IF e.pan # "" THEN PrintT(<<"MISMATCH", l, e.op, "", 0, 1>>)
-    ELSE LET bad == {i \in 0..(ChunkLen(e) - 1) : ~ElemOK(e, i)}
-             known == {i \in bad : ElemKnown(e, i)}
-             other == bad \ known
-         \* (IF, not \/: TLC explores both sides of a disjunction in an action)
-         IN /\ (IF known = {} THEN TRUE ELSE PrintT(<<"MISMATCH", l, e.op, "value-ge-32768-dropped", SetMin(known), Cardinality(known)>>))
-            /\ (IF other = {} THEN TRUE ELSE PrintT(<<"MISMATCH", l, e.op, "", SetMin(other), Cardinality(other)>>))
-  ELSE IF SingleOK(e) THEN TRUE ELSE PrintT(<<"MISMATCH", l, e.op, SingleKnown(e), 0, 1>>)
+\* The report of an event is a SET of lines computed as an ordinary expression (TLC caches LET definitions
+\* there, not inside an action; and both sides of a disjunction in an action are explored) and printed by the action.
+Lines(e) ==
+  (IF IsChunk(e) THEN
+     IF e.pan # "" THEN {<<"MISMATCH", l, e.op, "", 0, 1>>}
+     ELSE LET rows == {<<i, ElemOK(e, i), ElemKnown(e, i)>> : i \in 0..(ChunkLen(e) - 1)}
+              known == {r[1] : r \in {x \in rows : ~x[2] /\ x[3]}}
+              other == {r[1] : r \in {x \in rows : ~x[2] /\ ~x[3]}}
+          IN (IF known = {} THEN {} ELSE {<<"MISMATCH", l, e.op, "value-ge-32768-dropped", SetMin(known), Cardinality(known)>>})
+             \cup (IF other = {} THEN {} ELSE {<<"MISMATCH", l, e.op, "", SetMin(other), Cardinality(other)>>})
+   ELSE IF SingleOK(e) THEN {} ELSE {<<"MISMATCH", l, e.op, SingleKnown(e), 0, 1>>})
+  \cup (IF Sane(e) THEN {} ELSE {<<"MISMATCH", l, e.op, "SANITY", 0, 1>>})
 
 TInit == l = 1 /\ TLCSet(2, 0)
 TNext ==
   /\ l <= Len(TraceLog)
-  /\ LET e == TraceLog[l] IN
-     /\ Report(e)
-     /\ (IF Sane(e) THEN TRUE ELSE PrintT(<<"MISMATCH", l, e.op, "SANITY", 0, 1>>))
+  /\ \A t \in Lines(TraceLog[l]) : PrintT(t)
   /\ TLCSet(2, l)
   /\ l' = l + 1
 TSpec == TInit /\ [][TNext]_l
